@@ -396,6 +396,9 @@ where
         }
         ec.name_list = self.read_string_list();
         ec.name_location = self.reader.read_string();
+        if !ec.name_location.is_empty() {
+            ec.parent_state_name = self.reader.read_string();
+        }
         self.read_parameters(&mut ec.params);
 
         ec.event = self.reader.read_data();
